@@ -319,6 +319,38 @@ def _gen_parsers():
         if len(n_val) != 1 or len(rets) != 1 or not strips \
                 or ast.unparse(rets[0]) != "%s * %s ** %s / %s" % (n_val[0], n_base, n_exp, n_div):
             raise Unsupported("parse_size arithmetic changed")
+        # the arithmetic as an expression over an abstract float type (interpreted exactly and in binary64)
+        kinds = {n_val[0]: ("s", "float"), n_base: ("i", "int"), n_exp: ("(u.toNat)", "nat"), n_div: ("b", "int")}
+
+        def arith(node):
+            if isinstance(node, ast.Name) and node.id in kinds:
+                return kinds[node.id]
+            if isinstance(node, ast.BinOp) and isinstance(node.op, ast.Pow):
+                a, ta = arith(node.left)
+                b_, tb = arith(node.right)
+                if ta == "int" and tb == "nat":
+                    return ("(%s ^ %s)" % (a, b_), "int")
+                raise Unsupported("parse_size: power of %s by %s" % (ta, tb))
+            if isinstance(node, ast.BinOp) and isinstance(node.op, (ast.Mult, ast.Div)):
+                a, ta = arith(node.left)
+                b_, tb = arith(node.right)
+                if ta == "nat" or tb == "nat":
+                    raise Unsupported("parse_size: the unit exponent used as a factor")
+                if ta == "int" and tb == "int":
+                    if isinstance(node.op, ast.Mult):
+                        return ("(%s * %s)" % (a, b_), "int")
+                    raise Unsupported("parse_size: true division of two ints")
+                fa = a if ta == "float" else "(ofInt %s)" % a
+                fb = b_ if tb == "float" else "(ofInt %s)" % b_
+                return ("(%s %s %s)" % ("mul" if isinstance(node.op, ast.Mult) else "div", fa, fb), "float")
+            raise Unsupported("parse_size arithmetic: " + ast.unparse(node)[:60])
+
+        formula, ftyp = arith(rets[0])
+        if ftyp != "float":
+            raise Unsupported("parse_size no longer returns a float")
+        body += "/-- the arithmetic of `parse_size` (`%s`) over an abstract float type -/\n" % ast.unparse(rets[0])
+        body += ("def sizeFormula {F : Type} (mul div : F → F → F) (ofInt : Int → F) (s : F) (i u b : Int) : F :=\n  %s\n\n"
+                 % formula)
         body += "def sizeUnitLetters : Py.Str := %s\n" % lean_chars(letters)
         body += "def sizeUnitOffset : Int := %d\n" % ub.right.value
         body += "def sizeBinaryBase : Int := %d\ndef sizeDecimalBase : Int := %d\n" % (base_bin, base_dec)
@@ -471,14 +503,43 @@ def _gen_sink():
 
         # ---- Rotation.rotation_size
         rs = find_func(fs, "rotation_size", "Rotation")
-        if [a.arg for a in rs.args.args] != ["message", "file", "size_limit"] or len(rs.body) < 2 \
-                or ast.unparse(rs.body[0]) != "file.seek(0, 2)" or not isinstance(rs.body[-1], ast.Return):
+        if [a.arg for a in rs.args.args] != ["message", "file", "size_limit"] or not rs.body \
+                or not isinstance(rs.body[-1], ast.Return):
             raise Unsupported("rotation_size shape")
 
-        def call_tell(tr, node):
-            if node.args or node.keywords:
-                raise Unsupported("tell()")
-            return ("tell", "int")
+        def is_seek_end(n):
+            return (isinstance(n, ast.Call) and ast.unparse(n.func) == "file.seek" and not n.keywords
+                    and [ast.unparse(a) for a in n.args] in (["0", "2"], ["0", "os.SEEK_END"], ["0", "io.SEEK_END"]))
+
+        STAT_SIZE = ("os.fstat(file.fileno()).st_size", "os.stat(file.fileno()).st_size", "os.stat(file.name).st_size",
+                     "os.path.getsize(file.name)")
+        used = set()
+
+        class _Sizes(ast.NodeTransformer):
+            """the expressions that read "the size of the file" become the variable `tell`; which one it was is
+            recorded (Gen.sizeSource) and interpreted on the stream model"""
+            def visit_Attribute(self, node):
+                if ast.unparse(node) in STAT_SIZE:
+                    used.add("stat")
+                    return ast.copy_location(ast.Name(id="__size__", ctx=ast.Load()), node)
+                return self.generic_visit(node)
+
+            def visit_Call(self, node):
+                if ast.unparse(node) in STAT_SIZE:
+                    used.add("stat")
+                    return ast.copy_location(ast.Name(id="__size__", ctx=ast.Load()), node)
+                if is_seek_end(node):
+                    used.add("seekvalue")
+                    return ast.copy_location(ast.Name(id="__size__", ctx=ast.Load()), node)
+                if ast.unparse(node) == "file.tell()":
+                    used.add("tell")
+                    return ast.copy_location(ast.Name(id="__size__", ctx=ast.Load()), node)
+                return self.generic_visit(node)
+
+        stmts = list(rs.body)
+        seek_first = isinstance(stmts[0], ast.Expr) and is_seek_end(stmts[0].value)
+        if seek_first:
+            stmts = stmts[1:]
 
         def call_len(tr, node):
             arg = ast.unparse(node.args[0]) if len(node.args) == 1 else "?"
@@ -488,16 +549,89 @@ def _gen_sink():
                 return ("msgChars", "int")
             raise Unsupported("len of " + arg)
 
-        rs_env = {"size_limit": ("sizeLimit", "int")}
-        rs_calls = {"file.tell": call_tell, "len": call_len}
-        for st in rs.body[1:-1]:      # plain local assignments are inlined
+        rs_env = {"size_limit": ("sizeLimit", "int"), "__size__": ("tell", "int")}
+        rs_calls = {"len": call_len}
+        for st in stmts[:-1]:      # plain local assignments are inlined
             if not (isinstance(st, ast.Assign) and len(st.targets) == 1 and isinstance(st.targets[0], ast.Name)):
                 raise Unsupported("rotation_size statement " + ast.unparse(st)[:60])
-            rs_env[st.targets[0].id] = Tr(rs_env, rs_calls).tr(st.value)
-        term, typ = Tr(rs_env, rs_calls).tr(rs.body[-1].value)
+            rs_env[st.targets[0].id] = Tr(rs_env, rs_calls).tr(_Sizes().visit(st.value))
+        term, typ = Tr(rs_env, rs_calls).tr(_Sizes().visit(stmts[-1].value))
         Tr.need(typ, "bool")
-        body += "/-- `Rotation.rotation_size` after `file.seek(0, 2)`: tell = size of the file in bytes -/\n"
-        body += "def rotationSize (tell msgBytes msgChars sizeLimit : Int) : Bool := %s\n\n" % term
+        if used == {"tell"} and seek_first or used == {"seekvalue"} and not seek_first:
+            source = "seekEndTell"
+        elif used == {"tell"}:
+            source = "tellOnly"
+        elif used == {"stat"}:
+            source = "statSize"
+        else:
+            raise Unsupported("rotation_size: where the size of the file comes from: %r" % (sorted(used),))
+        body += "/-- `Rotation.rotation_size`: `tell` = what the body reads as the size of the file (see `sizeSource`) -/\n"
+        body += "def rotationSize (tell msgBytes msgChars sizeLimit : Int) : Bool := %s\n" % term
+        body += "/-- where that number comes from: `file.seek(0, 2)` + `file.tell()`, `tell()` alone, or the OS -/\n"
+        body += "def sizeSource : SizeSource := .%s\n\n" % source
+
+        # ---- RotationGroup.__call__: how the members are combined
+        rg = find_class(find_class(fs, "Rotation"), "RotationGroup")
+        gcall = [n for n in rg.body if isinstance(n, ast.FunctionDef) and n.name == "__call__"]
+        if len(gcall) != 1 or [a.arg for a in gcall[0].args.args] != ["self", "message", "file"]:
+            raise Unsupported("RotationGroup.__call__ shape")
+        gb = gcall[0].body
+        comb = None
+
+        def member_call(node, var):
+            return (isinstance(node, ast.Call) and ast.unparse(node.func) == var and not node.keywords
+                    and [ast.unparse(a) for a in node.args] == ["message", "file"])
+
+        if len(gb) == 1 and isinstance(gb[0], ast.Return) and isinstance(gb[0].value, ast.Call) \
+                and ast.unparse(gb[0].value.func) in ("any", "all") and len(gb[0].value.args) == 1 \
+                and isinstance(gb[0].value.args[0], (ast.GeneratorExp, ast.ListComp)):
+            ge = gb[0].value.args[0]
+            if len(ge.generators) == 1 and not ge.generators[0].ifs and isinstance(ge.generators[0].target, ast.Name) \
+                    and ast.unparse(ge.generators[0].iter) == "self._rotations" \
+                    and member_call(ge.elt, ge.generators[0].target.id) and isinstance(ge, ast.GeneratorExp):
+                comb = "anyInOrder" if ast.unparse(gb[0].value.func) == "any" else "allInOrder"
+        elif len(gb) == 2 and isinstance(gb[0], ast.For) and isinstance(gb[1], ast.Return) and not gb[0].orelse \
+                and isinstance(gb[0].target, ast.Name) and ast.unparse(gb[0].iter) == "self._rotations" \
+                and len(gb[0].body) == 1 and isinstance(gb[0].body[0], ast.If) and not gb[0].body[0].orelse \
+                and len(gb[0].body[0].body) == 1 and isinstance(gb[0].body[0].body[0], ast.Return):
+            test, inner, final = gb[0].body[0].test, ast.unparse(gb[0].body[0].body[0].value), ast.unparse(gb[1].value)
+            var = gb[0].target.id
+            if member_call(test, var) and (inner, final) == ("True", "False"):
+                comb = "anyInOrder"       # for r in rotations: if r(m, f): return True  /  return False
+            elif isinstance(test, ast.UnaryOp) and isinstance(test.op, ast.Not) and member_call(test.operand, var) \
+                    and (inner, final) == ("False", "True"):
+                comb = "allInOrder"
+        if comb is None:
+            raise Unsupported("RotationGroup.__call__: neither any(...)/all(...) over self._rotations nor the equivalent loop")
+        body += "/-- `RotationGroup.__call__`: members asked in list order, combined with … -/\n"
+        body += "def groupCombinator : GroupComb := .%s\n\n" % comb
+
+        # ---- FileSink.write: the order of (open if needed) / rotation check / write
+        fsink0 = find_class(fs, "FileSink")
+        wr = find_func(fs, "write", "FileSink")
+        order_w = []
+        for st in wr.body:
+            src = ast.unparse(st)
+            if isinstance(st, ast.If) and ast.unparse(st.test) in ("self._file is None", "not self._file"):
+                order_w.append("ensureOpen")
+            elif isinstance(st, ast.If) and ast.unparse(st.test) == "self._watch":
+                continue
+            elif isinstance(st, ast.If) and "self._rotation_function(message, self._file)" in ast.unparse(st.test) \
+                    and [ast.unparse(x) for x in st.body] == ["self._terminate_file(is_rotating=True)"] and not st.orelse:
+                t = st.test
+                ok = ast.unparse(t) == "self._rotation_function(message, self._file)" or (
+                    isinstance(t, ast.BoolOp) and isinstance(t.op, ast.And) and len(t.values) == 2
+                    and ast.unparse(t.values[0]) in ("self._rotation_function is not None", "self._rotation_function")
+                    and ast.unparse(t.values[1]) == "self._rotation_function(message, self._file)")
+                if not ok:
+                    raise Unsupported("FileSink.write: rotation test " + ast.unparse(t)[:80])
+                order_w.append("rotationCheck")
+            elif src == "self._file.write(message)":
+                order_w.append("fileWrite")
+            else:
+                raise Unsupported("FileSink.write statement: " + src[:60])
+        body += "/-- `FileSink.write`: the order of its steps (watch/reopen left out) -/\n"
+        body += "def writeOrder : List WriteStep := [%s]\n\n" % ", ".join("." + x for x in order_w)
 
         # ---- RotationTime.__call__
         rt = find_class(find_class(fs, "Rotation"), "RotationTime")
